@@ -51,7 +51,7 @@ def run(ctx):
         groups.setdefault((q["w"], tuple(sorted(q["labels"])), q["found"]), []).append(q)
     for g in groups.values():
         rnd.shuffle(g)
-    budget = 360 if quick else 6000
+    budget = 360 if quick else 3000
     chosen = []
     ks = sorted(groups)
     i = 0
@@ -84,7 +84,7 @@ def run(ctx):
     ctx.note("exhaustive", False)
     ctx.note("rule", "TLC: every tree of the bounds x 3 wrappers x every layout of <=%d files; executed: seeded round-robin sample of %d queries over "
              "(wrapper, mechanism set, pruned?) groups, each on the full layout, the smallest predicted-lossy layout and one loss-free 2-file layout"
-             % (2 if quick else 3, len(chosen)))
+             % (2, len(chosen)))
     for s in (r.get("samples") or []):
         ctx.sample(s)
     ctx.assume("NOW()/CURRENT_TIMESTAMP are replaced by the fixed clock (2020-01-04 12:00:00 UTC) in the transformed SQL before execution; the pruner reads the same clock through the overlay")
